@@ -54,6 +54,10 @@ SPELLINGS = [
     ("HEX 2^64-1 ull", 2 ** 64 - 1, "0xFFFFFFFFFFFFFFFFull"),
     ("octal 2^31", 2 ** 31, "020000000000"),
     ("2^31 UL", 2 ** 31, "2147483648UL"),
+    # quotients and remainders of operands beyond 2^53 (all signed, all results in range: no unsigned arithmetic)
+    ("quotient (2^63-1)/3", (2 ** 63 - 1) // 3, "9223372036854775807 / 3"),
+    ("quotient (2^62+1)/1", 2 ** 62 + 1, "4611686018427387905 / 1"),
+    ("remainder (2^63-1)%1000003", (2 ** 63 - 1) % 1000003, "9223372036854775807 % 1000003"),
 ]
 
 # '#define DEF_0 <-2^63>' has no spelling that is an integer literal in C (the one cdef accepts, "-9223372036854775808",
